@@ -1157,3 +1157,165 @@ func RunFlagClass(w *World, r *Report) {
 	}
 	r.Floor("flagclass", 5)
 }
+
+// RunMapMiss: the lookup tables of the shaping engine are Go maps keyed by
+// glyph (pairs); "no rule for this glyph" is a missing key, and the value of a
+// missing key is nil.  Every pointer-like value taken out of a map is
+// dereferenced only where the presence flag of the two-value lookup has been
+// tested (true edge dominates the use) or the value itself has been compared
+// with nil.  This is the one source of nil that adversarial *input* controls
+// (which glyphs occur in the text); the non-nil-ness of what the tables
+// contain is the reader's business (C02 nilderef).
+func RunMapMiss(w *World, r *Report, fns []*ssa.Function) {
+	r.Rule("mapmiss: in the functions reachable from Context.Apply / Layouter.Layout every pointer, interface, map or function value obtained from a map lookup is dereferenced (field access, method call, call) only where the lookup's presence flag has been tested (the use is dominated by the true edge of `ok`) or the value has been compared with nil: a glyph without an entry yields the zero value")
+	n := 0
+	for _, fn := range fns {
+		for _, b := range fn.Blocks {
+			for _, in := range b.Instrs {
+				lk, ok := in.(*ssa.Lookup)
+				if !ok {
+					continue
+				}
+				if _, isMap := lk.X.Type().Underlying().(*types.Map); !isMap {
+					continue
+				}
+				var val ssa.Value = lk
+				var okv ssa.Value
+				if lk.CommaOk {
+					val = nil
+					if lk.Referrers() != nil {
+						for _, ref := range *lk.Referrers() {
+							if ex, isEx := ref.(*ssa.Extract); isEx {
+								if ex.Index == 0 {
+									val = ex
+								} else {
+									okv = ex
+								}
+							}
+						}
+					}
+				}
+				if val == nil {
+					continue
+				}
+				var uses []ssa.Instruction
+				if pointerLike(val.Type()) {
+					uses = derefUses(val)
+				} else if okv != nil && val.Referrers() != nil {
+					// v, ok := m[k] with a plain value (a coverage index): the zero
+					// value of a missing key is a valid-looking index, so every use
+					// of v belongs behind the test of ok
+					for _, ref := range *val.Referrers() {
+						if _, isDbg := ref.(*ssa.DebugRef); isDbg {
+							continue
+						}
+						if _, isPhi := ref.(*ssa.Phi); isPhi {
+							// merely carried to a join (a search loop that leaves
+							// with break when ok): what happens behind the join is
+							// decided by other tests and is not followed here
+							continue
+						}
+						uses = append(uses, ref)
+					}
+				}
+				if len(uses) == 0 {
+					continue
+				}
+				n++
+				key := r.MkKey("mapmiss", fnName(fn), "value of a map lookup")
+				var bad ssa.Instruction
+				for _, u := range uses {
+					if !guardedByPresence(u.Block(), val, okv) {
+						bad = u
+						break
+					}
+				}
+				if bad != nil {
+					r.Fail("mapmiss", key, w.Pos(bad.Pos()), "the value of the map lookup at "+w.Pos(lk.Pos())+" is used here although neither the presence flag nor the value has been tested on this path: for a key without an entry (a glyph no rule mentions) this is the zero value: a nil dereference, or coverage index 0 — the rule of another glyph", nil)
+				} else {
+					r.OK("mapmiss", key, w.Pos(lk.Pos()), "every dereference follows the presence test")
+				}
+			}
+		}
+	}
+	r.Scope["mapmiss_lookups"] = n
+}
+
+func pointerLike(t types.Type) bool {
+	switch t.Underlying().(type) {
+	case *types.Pointer, *types.Interface, *types.Signature:
+		return true
+	}
+	return false
+}
+
+// derefUses: instructions that panic when v is nil (through phis of v only
+// when v is the sole non-nil source is not attempted: direct uses).
+func derefUses(v ssa.Value) []ssa.Instruction {
+	var res []ssa.Instruction
+	if v.Referrers() == nil {
+		return nil
+	}
+	for _, ref := range *v.Referrers() {
+		switch x := ref.(type) {
+		case *ssa.FieldAddr:
+			if x.X == v {
+				res = append(res, x)
+			}
+		case *ssa.UnOp:
+			if x.Op == token.MUL && x.X == v {
+				res = append(res, x)
+			}
+		case *ssa.Store:
+			if x.Addr == v {
+				res = append(res, x)
+			}
+		case ssa.CallInstruction:
+			c := x.Common()
+			if c.Value == v { // invoke on an interface / call of a function value
+				res = append(res, x)
+			} else if c.StaticCallee() != nil && len(c.Args) > 0 && c.Args[0] == v && c.StaticCallee().Signature.Recv() != nil {
+				// method with pointer receiver: the callee dereferences it unless it tests for nil first
+				if !calleeTestsReceiver(c.StaticCallee()) {
+					res = append(res, x)
+				}
+			}
+		}
+	}
+	return res
+}
+
+// calleeTestsReceiver: the method compares its receiver with nil before using it.
+func calleeTestsReceiver(f *ssa.Function) bool {
+	if len(f.Params) == 0 || len(f.Blocks) == 0 {
+		return false
+	}
+	recv := f.Params[0]
+	if recv.Referrers() == nil {
+		return false
+	}
+	for _, ref := range *recv.Referrers() {
+		if bo, ok := ref.(*ssa.BinOp); ok && (bo.Op == token.EQL || bo.Op == token.NEQ) && (isNilConst(bo.X) || isNilConst(bo.Y)) && bo.Block() == f.Blocks[0] {
+			return true
+		}
+	}
+	return false
+}
+
+func guardedByPresence(b *ssa.BasicBlock, val, okv ssa.Value) bool {
+	for _, g := range guardsOf(b) {
+		if okv != nil && g.cond == okv && g.then {
+			return true
+		}
+		// !ok: UnOp NOT
+		if un, isUn := g.cond.(*ssa.UnOp); isUn && un.Op == token.NOT && okv != nil && un.X == okv && !g.then {
+			return true
+		}
+		if bo, isBO := g.cond.(*ssa.BinOp); isBO && (bo.X == val || bo.Y == val) && (isNilConst(bo.X) || isNilConst(bo.Y)) {
+			if (bo.Op == token.NEQ && g.then) || (bo.Op == token.EQL && !g.then) {
+				return true
+			}
+		}
+	}
+	return false
+}
